@@ -207,8 +207,20 @@ pub fn generate_crates(dir: &str, thorough: bool, seed: u64, repo: &str) -> std:
     let mut src = String::new();
     src.push_str("#![allow(dead_code, non_upper_case_globals)]\n// generated by iref-verif (C17): every literal below is valid for its macro (RFC model)\nuse iref::{Iri, IriRef, Uri, UriRef};\n\n");
     let mut expected = Vec::new();
+    // forwarding macros: the literal reaches the proc macro as a `literal`, `expr` (invisible group) or `tt` fragment
+    src.push_str("macro_rules! fwd_literal { ($m:ident, $l:literal) => { iref::$m!($l) } }\nmacro_rules! fwd_expr { ($m:ident, $l:expr) => { iref::$m!($l) } }\nmacro_rules! fwd_tt { ($m:ident, $l:tt) => { iref::$m!($l) } }\n\n");
     for (i, l) in valid.iter().enumerate() {
-        writeln!(src, "const V{}: &'static {} = iref::{}!({});", i, l.ty, l.mac, l.spelling).unwrap();
+        // the invocation context varies (always one line starting with `const V<i>:` unless the literal itself continues)
+        let inv = match (crate::rng::hash_bytes(l.text.as_bytes()) ^ i as u64) % 12 {
+            0 => format!("::iref::{}!({})", l.mac, l.spelling),
+            1 => format!("fwd_literal!({}, {})", l.mac, l.spelling),
+            2 => format!("fwd_expr!({}, {})", l.mac, l.spelling),
+            3 => format!("fwd_tt!({}, {})", l.mac, l.spelling),
+            4 => format!("{{ static INNER: &'static {} = iref::{}!({}); INNER }}", l.ty, l.mac, l.spelling),
+            5 => format!("{{ const fn pick<'a>(x: &'a {}, _y: &'a {}) -> &'a {} {{ x }} pick(iref::{}!({}), iref::{}!({})) }}", l.ty, l.ty, l.ty, l.mac, l.spelling, l.mac, l.spelling),
+            _ => format!("iref::{}!({})", l.mac, l.spelling),
+        };
+        writeln!(src, "const V{}: &'static {} = {};", i, l.ty, inv).unwrap();
     }
     src.push_str("\nmacro_rules! check {\n    ($id:expr, $T:ty, $parse:expr, $v:expr, $bytes:expr) => {{\n        let v: &'static $T = $v;\n        let bytes: &[u8] = $bytes;\n        if v.as_bytes() != bytes {\n            println!(\"MISMATCH {} bytes {:?}\", $id, v.as_bytes());\n        }\n        match $parse(bytes) {\n            Ok(r) => {\n                if r != v || !(r.parts() == v.parts()) || r.as_bytes() != v.as_bytes() {\n                    println!(\"MISMATCH {} runtime-differs\", $id);\n                }\n            }\n            Err(_) => println!(\"MISMATCH {} runtime-rejects\", $id),\n        }\n        println!(\"CHECKED {}\", $id);\n    }};\n}\n\n");
     for (i, l) in valid.iter().enumerate() {
